@@ -20,7 +20,7 @@ import (
 	"github.com/oasisprotocol/curve25519-voi/internal/verif/ref/refed"
 )
 
-func unhex(s string) []byte {
+func unhexEd(s string) []byte {
 	b, err := hex.DecodeString(s)
 	if err != nil {
 		panic(err)
@@ -104,10 +104,10 @@ func init() {
 				"98a70222f0b8121aa9d30f813d683f809e462b469c7ff87639499bb94e6dae4131f85042463c2a355a2003d062adf5aaa10b8c61e636062aaad11c2a26083406", true},
 		}
 		for _, v := range vecs {
-			k := refed.NewKey(unhex(v.sk))
+			k := refed.NewKey(unhexEd(v.sk))
 			check(v.name+" public key", hex.EncodeToString(k.Pub) == v.pk)
-			va := refed.Variant{Ph: v.ph, Context: unhex(v.ctx)}
-			m := unhex(v.msg)
+			va := refed.Variant{Ph: v.ph, Context: unhexEd(v.ctx)}
+			m := unhexEd(v.msg)
 			if v.ph {
 				m = refed.Prehash(m)
 			}
@@ -258,7 +258,7 @@ func init() {
 				if len(parts) < 4 {
 					continue
 				}
-				sk, pk, msg, sm := unhex(parts[0]), unhex(parts[1]), unhex(parts[2]), unhex(parts[3])
+				sk, pk, msg, sm := unhexEd(parts[0]), unhexEd(parts[1]), unhexEd(parts[2]), unhexEd(parts[3])
 				k := refed.NewKey(sk[:32])
 				check("sign.input public key", bytes.Equal(k.Pub, pk))
 				check("sign.input signature", bytes.Equal(k.Sign(refed.Variant{}, msg), sm[:64]))
@@ -272,10 +272,10 @@ func init() {
 			var vs []struct{ Name, Secret_key, Public_key, Message, Context, Signature string }
 			check("ctx json", json.Unmarshal(raw, &vs) == nil && len(vs) >= 4)
 			for _, v := range vs {
-				k := refed.NewKey(unhex(v.Secret_key))
-				va := refed.Variant{Context: unhex(v.Context)}
+				k := refed.NewKey(unhexEd(v.Secret_key))
+				va := refed.Variant{Context: unhexEd(v.Context)}
 				check("ctx "+v.Name+" pk", hex.EncodeToString(k.Pub) == v.Public_key)
-				check("ctx "+v.Name+" sig", hex.EncodeToString(k.Sign(va, unhex(v.Message))) == v.Signature)
+				check("ctx "+v.Name+" sig", hex.EncodeToString(k.Sign(va, unhexEd(v.Message))) == v.Signature)
 			}
 		} else {
 			fmt.Println("note: rfc8032_ctx.json.gz not found, skipped")
@@ -294,12 +294,12 @@ func init() {
 			}
 			fl := map[string]refed.Flags{"StdLib": refed.PresetStdLib, "ZIP215": refed.PresetZIP215, "FIPS": refed.PresetFIPS, "Default": refed.PresetDefault}
 			for i, v := range vs {
-				f := refed.Analyse(unhex(v.Pub_key), unhex(v.Message), unhex(v.Signature), refed.Variant{})
+				f := refed.Analyse(unhexEd(v.Pub_key), unhexEd(v.Message), unhexEd(v.Signature), refed.Variant{})
 				for name, exp := range tab {
 					got, why := f.Verdict(fl[name])
 					check(fmt.Sprintf("speccheck case %d under %s (got %v %s)", i, name, got, why), got == exp[i])
 				}
-				std := ed25519.Verify(unhex(v.Pub_key), unhex(v.Message), unhex(v.Signature))
+				std := ed25519.Verify(unhexEd(v.Pub_key), unhexEd(v.Message), unhexEd(v.Signature))
 				check(fmt.Sprintf("speccheck case %d Go row == this Go std-lib", i), std == tab["StdLib"][i])
 			}
 		} else {
@@ -309,13 +309,13 @@ func init() {
 			var vs [][2]string
 			check("zip215 json", json.Unmarshal(raw, &vs) == nil && len(vs) == 196)
 			for i, v := range vs {
-				f := refed.Analyse(unhex(v[0]), []byte("Zcash"), unhex(v[1]), refed.Variant{})
+				f := refed.Analyse(unhexEd(v[0]), []byte("Zcash"), unhexEd(v[1]), refed.Variant{})
 				z, why := f.Verdict(refed.PresetZIP215)
 				check(fmt.Sprintf("ZIP-215 vector %d accepted by ZIP-215 rules (%s)", i, why), z)
 				d, _ := f.Verdict(refed.PresetDefault)
 				check(fmt.Sprintf("ZIP-215 vector %d rejected when small-order A is refused", i), !d)
 				check("ZIP-215 vectors are small order", f.A.SmallOrder && f.R.SmallOrder)
-				std := ed25519.Verify(unhex(v[0]), []byte("Zcash"), unhex(v[1]))
+				std := ed25519.Verify(unhexEd(v[0]), []byte("Zcash"), unhexEd(v[1]))
 				s, _ := f.Verdict(refed.PresetStdLib)
 				check(fmt.Sprintf("ZIP-215 vector %d StdLib predicate == std-lib", i), s == std)
 			}
